@@ -23,7 +23,8 @@ RULE = ("instances discovered by object-graph reflection from SUBFIELD_SERIALIZE
         "(distinct by class, wire type, lower, upper, rounding mode, step); for each, EVERY raw value of its 8/16-bit "
         "wire type is decoded and re-encoded (through the adapter and through the reader/writer in both byte orders); "
         "key-frame times additionally over a sweep of fixed + Hypothesis-generated f32 durations; mesh vertex data additionally "
-        "through its per-LOD domain (generated Min/Max) with every raw value of every component.  A case is "
+        "through its per-LOD domain (generated Min/Max) with every raw value of every component; mesh vertex weights additionally "
+        "as generated whole vertices of 0..4 influences (joints 0..254, raw weights biased high so that raw sums exceed 0xFFFF).  A case is "
         "(instance, raw[, duration]); all are distinct by construction; non-trivial = raw value other than the wire "
         "type's minimum.")
 ASSUMPTIONS = [
@@ -35,14 +36,15 @@ ASSUMPTIONS = [
 EXHAUSTIVE = {"quick": True, "thorough": True}
 EXHAUSTIVE_PARTS = {"quick": ["every raw value of every discovered instance"],
                     "thorough": ["every raw value of every discovered instance"]}
-FLOORS = {"quick": {"instances": 15, "time_durations": 40, "coord_instances": 5}, "thorough": {"instances": 15, "time_durations": 500, "coord_instances": 5}}
+FLOORS = {"quick": {"instances": 15, "time_durations": 40, "coord_instances": 5, "vertex_raw_sum>0xFFFF": 500, "vertex_influences:4": 300}, "thorough": {"instances": 15, "time_durations": 500, "coord_instances": 5}}
 MANIFEST = {
     "text": "Complete enumeration of the raw wire domain (256 or 65,536 values) of every quantised/fixed-point instance "
             "reachable from the templates, animation and mesh codecs, with exact round-trip, monotonicity, end-point and "
-            "zero laws; for these finite domains the result is exhaustive, the duration-dependent range is swept.",
+            "zero laws; for these finite domains the result is exhaustive, the duration-dependent range is swept; mesh vertex weights "
+            "are additionally generated as whole vertices (0..4 influences) and must decode exactly and re-encode byte-identically.",
     "note": "Instance discovery is by reflection (floor of 15 instances guards against silently finding none). "
             "Durations are sampled (fixed list + generated f32), not exhaustive.",
-    "technique": "exhaustive enumeration of finite wire domains with round-trip/monotonicity/end-point oracles; Hypothesis for durations",
+    "technique": "exhaustive enumeration of finite wire domains with round-trip/monotonicity/end-point oracles; Hypothesis for durations, mesh domains and multi-influence vertices",
 }
 
 
@@ -381,6 +383,38 @@ def check_vertex_weights(ctx):
     return 0x10000
 
 
+@st.composite
+def vertex_influences(draw):
+    """the wire form of one vertex: 0..4 (joint, U16 weight) pairs, terminated by 0xFF when fewer than four"""
+    n = draw(st.integers(0, 4))
+    w16 = st.one_of(st.integers(0, 0xFFFF), st.integers(0x4000, 0xFFFF), st.sampled_from([0, 1, 0x7FFF, 0x8000, 0xFFFE, 0xFFFF]))
+    return {"influences": [[draw(st.integers(0, 0xFE)), draw(w16)] for _ in range(n)]}
+
+
+def vertex_influence_laws(case):
+    inf = case["influences"]
+    raw = b"".join(bytes([j]) + struct.pack("<H", w) for j, w in inf) + (b"\xff" if len(inf) < 4 else b"")
+    out = []
+    try:
+        r = se.BufferReader("<", raw + b"\x7e")
+        v = r.read(mesh.VertexWeights)
+        if len(r) != 1:
+            out.append(("mesh.VertexWeights:multi:framing", "vertex %s: %d bytes left instead of 1" % (raw.hex(), len(r))))
+        got = [(x.joint_idx, x.weight) for x in v]
+        want = [(j, w / 0xFFFF) for j, w in inf]
+        if got != want:
+            out.append(("mesh.VertexWeights:multi:value", "vertex %s decodes to %r, the wire says %r" % (raw.hex(), got, want)))
+        w = se.BufferWriter("<")
+        w.write(mesh.VertexWeights, v)
+        back = bytes(w.copy_buffer())
+        if back != raw:
+            out.append(("mesh.VertexWeights:multi:roundtrip", "vertex %s (raw weights %r, sum %d) is written back as %s" % (
+                raw.hex(), [x[1] for x in inf], sum(x[1] for x in inf), back.hex())))
+    except Exception as e:
+        out.append(("mesh.VertexWeights:multi:raises:%s" % type(e).__name__, "vertex %s raised %r" % (raw.hex(), e)))
+    return out
+
+
 FIXED_DURATIONS = [1e-3, 0.5, 1.0, 3.3, 8.25, 10.0, 16.5, 30.0, 33.0, 37.0, 41.0, 45.0, 60.0, 3600.0,
                    float(np.float32(0.1)), float(np.float32(1 / 3)), float(np.float32(12.345)),
                    float(np.float32(3.4e38)), float(np.float32(1.4e-45)), float(np.float32(1.17549435e-38))]
@@ -464,6 +498,7 @@ def shards(tier):
     for i in range(4):
         sh.append({"kind": "mesh_domain", "n": 150 if th else 8})
     sh.append({"kind": "vertex_weights"})
+    sh.append({"kind": "vertex_multi", "n": 60000 if th else 6000})
     for k in discover_coords():
         sh.append({"kind": "coord", "key": k})
     sh.append({"kind": "time_fixed", "lo": 0, "hi": 10})
@@ -538,6 +573,14 @@ def run_shard(ctx, shard):
         n = check_vertex_weights(ctx)
         ctx.count("instances")
         ctx.bulk(n, n - 1, None, {"instance": "mesh.VertexWeights"})
+    elif k == "vertex_multi":
+        def vbody(case):
+            inf = case["influences"]
+            over = sum(x[1] for x in inf) > 0xFFFF
+            ctx.case(("vertex", tuple(map(tuple, inf))), nontrivial=len(inf) >= 2,
+                     classes=["vertex_influences:%d" % len(inf)] + (["vertex_raw_sum>0xFFFF"] if over else []))
+            return vertex_influence_laws(case)
+        hyp_run(ctx, vertex_influences(), vbody, shard["n"], label="vertex-influences")
     elif k == "time_fixed":
         key, q = _time_inst()
         for d in FIXED_DURATIONS[shard["lo"]:shard["hi"]]:
@@ -564,6 +607,8 @@ def run_shard(ctx, shard):
 
 
 def replay(ctx, case):
+    if isinstance(case, dict) and "influences" in case:
+        return vertex_influence_laws(case)
     if isinstance(case, dict) and "mesh_domain" in case:
         return mesh_domain_laws(case["mesh_domain"], case["lo"], case["hi"])
     if isinstance(case, dict) and "coord" in case:
